@@ -821,6 +821,8 @@ fn first_difference(a: &str, b: &str) -> (String, String) {
 const SIG_COLLISION: &str = "c04:container-move-copy-collision";
 const SIG_DUP_DOC: &str = "c04:document-with-duplicate-paths-accepted";
 const SIG_EMPTY_SN_C04: &str = "c04:empty-short-name-element-not-indexed";
+const SIG_LOWEST_VERSION: &str = "c07:content-below-mixed-version-file-set-checked-against-lowest-version-only";
+const SIG_SHARED_SUBTREE: &str = "c03:merge-into-twin-siblings-shares-subtree";
 const SIG_SN_NOT_FIRST: &str = "c04:short-name-not-first-accepted";
 const SIG_DUP_MIXED: &str = "c13:duplicate-of-model-with-files-of-different-versions";
 const SIG_ANCESTOR: &str = "c12:move-to-ancestor-parent-locked";
@@ -1085,6 +1087,32 @@ impl Checker {
         for s in snaps {
             let m = &self.w.models[s.k];
             let pre = &s.pre;
+            // one element object listed by two parents: the model is no tree any more
+            let mut first_at: HashMap<Element, usize> = HashMap::new();
+            let mut shared: Option<(usize, usize)> = None;
+            for (i, (_, e, _)) in pre.iter().enumerate() {
+                if let Some(j) = first_at.get(e) {
+                    shared = Some((*j, i));
+                    break;
+                }
+                first_at.insert(e.clone(), i);
+            }
+            if let Some((a, b)) = shared {
+                let (pa, pb) = (pre[a].2.map(|x| pre[x].1.clone()), pre[b].2.map(|x| pre[x].1.clone()));
+                let msg = format!("{} is a sub-element of {} AND of {}", self.nm(&pre[a].1), pa.as_ref().map_or("-".to_string(), |x| self.nm(x)), pb.as_ref().map_or("-".to_string(), |x| self.nm(x)));
+                // known: the two parents are siblings of one kind with one item name (the state a document with duplicate paths leaves,
+                // c04:document-with-duplicate-paths-accepted); a merging load pairs both with the same element of the new file
+                let twins = match (&pa, &pb) {
+                    (Some(x), Some(y)) => x != y && x.element_name() == y.element_name() && x.is_identifiable() && x.item_name() == y.item_name() && x.parent().ok().flatten() == y.parent().ok().flatten(),
+                    _ => false,
+                };
+                if twins {
+                    out.push(Failure::known("C03", SIG_SHARED_SUBTREE, msg));
+                } else {
+                    out.push(Failure::new("C03", "shared-element", msg));
+                }
+                continue;
+            }
             for (i, (_, e, pi)) in pre.iter().enumerate() {
                 match pi {
                     None => {
@@ -1733,7 +1761,7 @@ impl Checker {
             || (verb == "create" && words.get(3) == Some(&"0"))
             || (verb == "named" && words.get(4) == Some(&"0")))
             && handles.first().is_some_and(|p| p.is_identifiable() && p.content_type() == ContentType::Mixed);
-        let sort_pre: Option<SortPre> = if (verb == "sort" || verb == "sortm") && self.on("C14") {
+        let sort_pre: Option<SortPre> = if (verb == "sort" || verb == "sortm") && (self.on("C14") || self.on("C07")) {
             let top = if verb == "sort" { handles.first().cloned() } else { self.w.h_model(words.get(1).unwrap_or(&"")).map(|m| m.1.root_element()) };
             top.map(|t| SortPre {
                 shapes: t.elements_dfs().map(|(_, e)| (self.id(&e), self.shape(&e))).collect(),
@@ -1825,6 +1853,16 @@ impl Checker {
         } else {
             vec![]
         };
+        // elements that some file's own version already does not permit BEFORE the move (content created below a parent whose files
+        // have different versions is validated against the lowest of them only), with the version that rejects them
+        let compat_elem = |e: &CompatibilityError| match e {
+            CompatibilityError::IncompatibleAttribute { element, .. } | CompatibilityError::IncompatibleAttributeValue { element, .. } | CompatibilityError::IncompatibleElement { element, .. } => element.clone(),
+        };
+        let move_bad_pre: HashSet<(Element, u32)> = move_compat_pre
+            .iter()
+            .filter(|(_, n)| *n > 0)
+            .flat_map(|(f, _)| { let v = f.version() as u32; f.check_version_compatibility(f.version()).0.iter().map(|e| (compat_elem(e), v)).collect::<Vec<_>>() })
+            .collect();
         let mut pair_pre: Vec<(usize, Side, String)> = vec![];
         if c13 && !matches!(verb, "reset" | "newmodel" | "mkfile") {
             for (pi, (src, cp)) in self.pairs.iter().enumerate() {
@@ -1961,6 +1999,21 @@ impl Checker {
                 self.stop_c456 = true;
             }
         }
+        if let Some(sp) = sort_pre.as_ref().filter(|_| !self.on("C14")) {
+            // C07: what `sort` leaves conforms to the specification (order of a sequence)
+            *self.counts.entry("oracle.c07_sorts_checked").or_insert(0) += 1;
+            for (i, sh) in &sp.shapes {
+                if *i == usize::MAX || !self.reach.contains(i) {
+                    continue;
+                }
+                let now = self.shape(&self.w.elems[*i]);
+                if sh.in_spec_order && !now.in_spec_order {
+                    out.push(Failure::new("C07", "sort-spec-order", format!("`{req}`: the sub-elements of e{i} were in specification order before the sort and are not afterwards (the model is no longer valid)")));
+                    break;
+                }
+            }
+        }
+        let sort_pre = if self.on("C14") { sort_pre } else { None };
         if let Some(sp) = &sort_pre {
             *self.counts.entry("oracle.c14_sorts_checked").or_insert(0) += 1;
             for (i, sh) in &sp.shapes {
@@ -2039,7 +2092,11 @@ impl Checker {
                         None => String::new(),
                     };
                     let msg = format!("`{req}`: after the move a file holds content its own version {:?} does not permit ({} incompatibilities, none before); last: {what}", f.version(), errs.len());
-                    if !self.alien_type {
+                    let v = f.version() as u32;
+                    if errs.iter().all(|e| move_bad_pre.contains(&(compat_elem(e), v))) {
+                        // nothing new: every element listed was already rejected by a file of this very version before the move
+                        out.push(Failure::known("C07", SIG_LOWEST_VERSION, format!("{msg} - the same elements were already not permitted in another file of that version before the move")));
+                    } else if !self.alien_type {
                         out.push(Failure::new("C07", "move-invalid-in-destination", msg));
                     }
                     break;
